@@ -38,14 +38,18 @@ PROPERTY = "C08"
 ENGINES = ["hypothesis", "enumeration"]
 ASSUMPTIONS = [
     "score parts: one divisions value, time/key signature changes on bar lines only, complete final measure, every sounding note (tie chains merged) is matched or deleted, every performed note is a match, an insertion or an ornament",
+    "the first and the last bar contain the onset of a sounding note (the format knows bars only through the notes that start in them; bars of rests at either end cannot be expressed); bars without onsets in the middle are generated",
     "performed note ids are strings; ids that do not start with 'n' come back prefixed with 'n' (what exporter and importer both do on purpose)",
     "with assume_unfolded=False the score ids come back with the suffix '-1' that unfolding gives to the first copy of a note",
     "offset / duration fractions whose reduced numerator or denominator exceeds 1024 are approximated by FractionalSymbolicDuration (documented bound): such cases are generated rarely and not judged for score timing",
-    "positions before the first sounding note of a piece that starts with a pickup cannot be expressed by the loader (time 0 is the first note): the start of the first measure is then expected at the first note",
+    "positions before the first sounding note of a piece that starts with a pickup cannot be expressed by the loader (time 0 is the first note): the start of the first measure is then expected at the first note; the distance from the first note to the first full bar is written only as a 4-decimal beat value, cases where it is not on the grid of the written fractions are not judged for the score",
     "an alignment with fewer than two matched onsets gives no performance-to-score time map; an exporter failure on such input is counted, not judged",
-    "tick ties (x.5 within 1e-6) accept either neighbour; seconds compared with 1e-9 relative tolerance; beats with 1e-6",
-    "a watchdog of 30 s per call turns a non-terminating save/load into a discrepancy (calls take milliseconds)",
+    "tick ties (x.5 within 1e-6) accept either neighbour; seconds compared with 1e-9 relative tolerance; beats with 1e-6; quarter positions of notes, measures and signatures exactly (Fractions of integer divisions)",
+    "track numbers are renumbered by Performance.sanitize_track_numbers on purpose: only 'kept apart and in order' is demanded; repeated identical pedal lines are one line (the loader removes repeated lines on purpose), pedal events are compared as a time-ordered set of (tick, value)",
+    "articulations other than staccato and accent, fermatas, fingerings, grace type, clefs, tuplets and rests are written or generated but not demanded back",
+    "a watchdog of 30 s per call (3 s on inputs of the two open findings that produce fractional time points) turns a non-terminating save/load into a discrepancy (calls take milliseconds)",
     "ornament type: a string t and the one-element list [t] are treated as the same type",
+    "fixtures: only the three files under tests/data/match exist (formats 1.0.0 and 0.4.0); the duplicates sub-check writes 1.0.0 and 0.5.0 files itself",
 ]
 
 WATCHDOG_S = 30
@@ -389,11 +393,16 @@ def oracle(spec):
 
     # ---- signature lines of the file: at the start of the bar in which they were written -------
     first_num = 0 if sr.pickup else 1
-    exp_sig = Counter()
-    for attr, items in (("timeSignature", sr.ref.timesigs), ("keySignature", ps.get("keysigs", []))):
+    exp_sig, opt_sig = Counter(), Counter()
+    for attr, items in (("timeSignature", sr.ref.timesigs), ("keySignature", sorted(ps.get("keysigs", []), key=lambda k: k[0]))):
+        prev = None
         for it in items:
             b = sr.bar_of(it[0])
-            exp_sig[(attr, first_num + b, 1, "0", round(float(sr.tr.beat(ps["measures"][b][0])), 3))] += 1
+            key = (attr, first_num + b, 1, "0", round(float(sr.tr.beat(ps["measures"][b][0])), 3))
+            val = (it[1], it[2] or "major") if attr == "keySignature" else (it[1], it[2])
+            # a signature that repeats the one in force says nothing: its line may be left out
+            (opt_sig if val == prev else exp_sig)[key] += 1
+            prev = val
     got_sig = Counter()
     for line in text.splitlines():
         m = SCOREPROP_RE.match(line)
@@ -403,10 +412,12 @@ def oracle(spec):
             except ValueError:
                 got_sig[(m.group(1), m.group(3), m.group(4), m.group(5), m.group(6))] += 1
     for attr in ("timeSignature", "keySignature"):
-        e = sorted(k for k in exp_sig.elements() if k[0] == attr)
-        g = sorted((k for k in got_sig.elements() if k[0] == attr), key=repr)
-        if e != g:
-            o.add("file-signature-line-position-wrong", attribute=attr, got=[list(k[1:]) for k in g][:6], expected=[list(k[1:]) for k in e][:6])
+        e = Counter({k: v for k, v in exp_sig.items() if k[0] == attr})
+        op = Counter({k: v for k, v in opt_sig.items() if k[0] == attr})
+        g = Counter({k: v for k, v in got_sig.items() if k[0] == attr})
+        if (e - g) or ((g - e) - op):
+            o.add("file-signature-line-position-wrong", attribute=attr, got=[list(k[1:]) for k in sorted(g.elements(), key=repr)][:6],
+                  expected=[list(k[1:]) for k in sorted(e.elements(), key=repr)][:6], optional=[list(k[1:]) for k in sorted(op.elements(), key=repr)][:6])
 
     # ---- alignment ------------------------------------------------------------------------------
     exp_al = Counter()
